@@ -177,6 +177,8 @@ EXTRA6 = {
 }
 
 EXTRA7 = {
+ "C07": " Also: T-SQL (arity, chunk bound, schema) over the statements reachable from start-up clean-up and the removal of marked messages.",
+ "C19": " Also: nothing reachable from a function literal that runs inside a database wrapper enters db.Client.Read/Write again (self edge of the database lock).",
  "C04": " Also: no function of internal/state / internal/backend permutes a slice parameter in place (request order = UID order).",
  "C15": " Also: the numbers handed to response.Search originate only from Mailbox.Search (where UID vs sequence number is decided).",
  "C20": " R20.4 now also treats a caller-supplied mailbox as possibly the recovery mailbox.",
